@@ -88,11 +88,7 @@ def cases(tier, seed):
     params = BOUNDS["parametrization"]
     structs = BOUNDS["structures"]
     inits = [["gpts", [16, 16]], ["gpts", [15, 18]], ["sampling", 0.25], ["gpts", [24, 16]], ["sampling", [0.2, 0.3]]]
-    n = 0
-
     def mk(types, r, proj):
-        nonlocal n
-        n += 1
         return dict(
             projection=proj,
             parametrization=params[int(r.integers(len(params)))],
